@@ -32,7 +32,7 @@ fn pair_c06(ctx: &mut Ctx) -> (Dd, Dd) {
     };
     let c = ctx.weighted(&[4, 2, 4, 2, 3, 2]);
     let b = match c {
-        0 => dd_exp(ctx, -1022, 1023, true),
+        0 => dd_all(ctx),
         1 => {
             ctx.label("rel:equal");
             a
@@ -129,7 +129,7 @@ fn f64_for_cmp(ctx: &mut Ctx, a: Dd) -> f64 {
 }
 
 fn c06_tf(ctx: &mut Ctx) {
-    let a = dd_exp(ctx, -1022, 1023, true);
+    let a = dd_all(ctx);
     let c = f64_for_cmp(ctx, a);
     a.key(ctx);
     ctx.key_f64(c);
@@ -166,7 +166,7 @@ fn c06_nonfinite(ctx: &mut Ctx) {
             let i = ctx.below(pool.len() as u64) as usize;
             pool[i].1
         } else {
-            dd_exp(ctx, -1022, 1023, true)
+            dd_all(ctx)
         }
     };
     let a = pick(ctx);
@@ -243,8 +243,8 @@ fn c06_minmax(ctx: &mut Ctx) {
 }
 
 fn c06_sign(ctx: &mut Ctx) {
-    let x = dd_exp(ctx, -1022, 1023, true);
-    let s = dd_exp(ctx, -1022, 1023, true);
+    let x = dd_all(ctx);
+    let s = dd_all(ctx);
     x.key(ctx);
     s.key(ctx);
     note_dd(ctx, "x", x);
@@ -571,7 +571,7 @@ fn c12_bounds(ctx: &mut Ctx) {
         let hi = f64::from_bits(((ctx.flag() as u64) << 63) | (2046u64 << 52) | m);
         dd_at(ctx, hi)
     } else {
-        dd_exp(ctx, -1022, 1023, true)
+        dd_all(ctx)
     };
     x.key(ctx);
     note_dd(ctx, "x", x);
